@@ -11,8 +11,8 @@ for m in json.load(open('/verif/mutants/catalogue.json')):
     su = r.get('suite', ['?', '?'])
     print(f"| {m['id']} | {short(m['description'], 150)} | {su[0]}/{su[1]} | {m['property']}: {r.get('verdict')} ({r.get('wall')} s) | `{short(r.get('first_signature'), 70)}` |")
 print()
-print("| seed | change (sub-agent's summary, shortened) | needs to manifest | demo w/o → with | suite with | quick check | first signature |")
-print("|---|---|---|---|---|---|---|")
+print("| seed | change (sub-agent's summary, shortened) | needs to manifest | demo w/o → with | suite with | quick check | first signature | final tree |")
+print("|---|---|---|---|---|---|---|---|")
 n = miss = 0
 for d in sorted(glob.glob('/verif/seeded/*/meta.json')):
     m = json.load(open(d)); v = m['verified_here']; ck = m['checks']; n += 1
@@ -20,5 +20,6 @@ for d in sorted(glob.glob('/verif/seeded/*/meta.json')):
     sig = next((c['signatures'][0] for c in ck.values() if c['signatures']), '')
     dem = ('pass' if 'ok.' in v['demo_without_change'] else '?') + ' → ' + ('FAIL' if 'FAILED' in v['demo_with_change'] else '?')
     star = (' ★' if 'history' in m else '') + (' ◆' if 'breaks' in m else '')
-    print(f"| {m['id']}{star} | {short(m.get('summary'), 170)} | {short(m.get('needs_to_manifest'), 120)} | {dem} | {v['suite_with_change']['passed']}/{v['suite_with_change']['failed']} | {res} | `{short(sig, 60)}` |")
-print(f"\n{n} seeded changes; ★ = missed by the property's own check at first evaluation and caught after the check was strengthened (details in the seed's meta.json); ◆ = the change does not break the statement of the property it was written for but that of another property, whose check reports it (meta.json: `breaks`, `note`).")
+    ft = (m.get('final_tree') or {}).get('status', '?')
+    print(f"| {m['id']}{star} | {short(m.get('summary'), 170)} | {short(m.get('needs_to_manifest'), 120)} | {dem} | {v['suite_with_change']['passed']}/{v['suite_with_change']['failed']} | {res} | `{short(sig, 60)}` | {ft} |")
+print(f"\n{n} seeded changes; ★ = missed by the property's own check at first evaluation and caught after the check was strengthened (details in the seed's meta.json); ◆ = the change does not break the statement of the property it was written for but that of another property, whose check reports it (meta.json: `breaks`, `note`). Last column: re-run against the final tree (after all fixes): caught / superseded = the patch no longer applies or compiles because a later fix rewrote the same lines / neutralised = a later fix removed the path through which the change broke this property (meta.json: `final_tree`).")
